@@ -7,6 +7,8 @@ fn main() {
   let args: Vec<String> = std::env::args().collect();
   let which = args.get(1).map(|s| s.as_str()).unwrap_or("");
   match which {
+    "replay" => vh::replay::run(&args[2]),
+    "c01" => vh::engines::c01::run(),
     "c06" => vh::engines::c06::run(),
     "parse" => {
       // debug helper: vh parse "<names,comma separated>" "<text>"
